@@ -213,6 +213,42 @@ CHECKS = {
              "Known finding: header canonicalization simple (the default) does not verify because the signature field is re-folded after hashing "
              "(pinned by the repository's test_signature_rsa_simple). Four DKIM defects were repaired in /repo (see known_findings.json).",
         technique="Lean 4 proof (body canonicalization agreement for all bodies; structure of signing) + correspondence with an independent RFC 6376 reader on real signed output"),
+    "C07": dict(
+        category="proof",
+        text="Lean theorems on the pool transition system (Model/PoolLts.lean: sync and tokio pools over their critical sections, any number of "
+             "senders, any peer behaviour, any order of events): commits_equal_successes (for every schedule the messages committed at the "
+             "peer are as many as the sends that reported success), transaction_commits_iff_ok, ids_valid (no transition invents or loses a "
+             "connection). Partial: the exclusivity invariant (a connection is parked, or in use by one thread, never both) is stated in "
+             "Props/C07.lean and not proved; it is checked on every forced schedule by replaying the order the real pool actually took "
+             "through the model (every step must be enabled, results / per-connection peer histories / idle count must be predicted) and by "
+             "the peer-side oracle: transactions whole, one sender's identity from MAIL to the committed content, each successful send "
+             "committed exactly once, failed sends never. Real runtime interleavings finer than one critical section are not enumerated.",
+        design_ref="DESIGN.md 5 C07",
+        note="Trusted: Lean kernel; axioms propext/Quot.sound/Classical.choice; atomicity of one model transition (lock + the lock-free work that follows, which touches only connections the thread owns — proved only as id validity, exclusivity is checked per replayed schedule); the schedule controller and the verif-hooks scheduling points; the loopback peer's log; model + harness. Runtime behaviour the model cannot exhibit: data races inside a connection object, executor starvation.",
+        technique="Lean 4 proof (invariants of the pool transition system for all event sequences) + refinement check: forced schedules on the real pools replayed through the model"),
+    "C08": dict(
+        category="proof",
+        text="Lean theorems on Model/PoolLts.lean for every schedule and peer behaviour: idle_within_max (the idle set never exceeds max_size, "
+             "maintenance worker included), dead_connection_not_reused (a popped connection whose peer is gone is closed, nothing is sent on "
+             "it, the sender retries), live_connection_probed_first (NOOP before the transaction on a reused connection), "
+             "failed_connection_closed. Idle-timeout expiry and the top-up to min_idle are in the model and tied to the code by runs with "
+             "wall-clock waits (no theorem about elapsed time). Correspondence: histories with peer drops and refused recipients at any "
+             "send, all 16 (min_idle, max_size) pairs, maintenance passes anywhere, sync and tokio.",
+        design_ref="DESIGN.md 5 C08",
+        note="Trusted: Lean kernel; axioms propext/Quot.sound/Classical.choice; atomicity of one model transition (lock + the lock-free work that follows, which touches only connections the thread owns — proved only as id validity, exclusivity is checked per replayed schedule); the schedule controller and the verif-hooks scheduling points; the loopback peer's log; model + harness. One defect repaired in /repo: the maintenance pass parked connections beyond max_size.",
+        technique="Lean 4 proof (bound and health invariants of the pool transition system) + refinement check on forced schedules with peer faults and idle-timeout waits"),
+    "C09": dict(
+        category="proof",
+        text="Lean theorems on Model/PoolLts.lean: shutdown_final (once shut down, no event sequence brings the idle set back), shutdown_shuts, "
+             "shutdown_closes_parked, abort_sends_quit, send_after_shutdown_fails (shut-down error, no connection opened or touched), "
+             "return_after_shutdown_closes (a connection in use at that moment is closed, not parked, when it comes back). Partial: that "
+             "shutdown returns promptly, and that after the last handle is dropped the worker thread has exited and every socket is closed, "
+             "are runtime facts checked on every forced schedule (schedule runs to completion, thread census via /proc, socket census at the "
+             "peer), not theorems. Correspondence: one or two shutdown calls at every position of every order of the critical sections of "
+             "1..2 senders x 1..2 sends, pools with 0..3 parked connections, maintenance passes, peer faults; sync and tokio.",
+        design_ref="DESIGN.md 5 C09",
+        note="Trusted: Lean kernel; axioms propext/Quot.sound/Classical.choice; atomicity of one model transition (lock + the lock-free work that follows, which touches only connections the thread owns — proved only as id validity, exclusivity is checked per replayed schedule); the schedule controller and the verif-hooks scheduling points; the loopback peer's log; model + harness. ",
+        technique="Lean 4 proof (shutdown invariants of the pool transition system) + refinement check: shutdown forced at every position of the schedules of the real pools"),
 }
 
 NOT_APPLICABLE = {
